@@ -451,21 +451,29 @@ def client_case(idx, rng, rep):
             v['reset_p'] = True
 
     def change_setting():
-        if len(st['pending']) >= 2:
+        if len(st['pending']) >= 3:
             return
-        v = rng.choice([0, 1])
-        steps.append(('E-update-settings-enable-push', v))
-        r = t.call('update_settings', {wire.S_ENABLE_PUSH: v})
+        v = rng.choice([0, 1, 0, 1, None])
+        # None: a SETTINGS frame that does not mention ENABLE_PUSH (empty, or another setting only); it takes an ACK all the same
+        new = {} if v is None else {wire.S_ENABLE_PUSH: v}
+        if rng.random() < (0.5 if v is None else 0.2):
+            new[wire.S_MAX_HEADER_LIST_SIZE] = rng.choice([65536, 100000])
+        steps.append(('E-update-settings', sorted(new.items())))
+        r = t.call('update_settings', new)
         if r.exc is not None:
             return fail('C22:valid-step-refused:update_settings:' + core.exc_key(r.exc), repr(r.exc))
         st['pending'].append(v)
+        if v is None:
+            rep.count('settings_frames_without_enable_push_in_flight')
 
     def ack():
         if not st['pending']:
             return
         steps.append(('P-settings-ack', st['pending'][0]))
         deliver(wire.build_settings(ack=True), 'SETTINGS-ACK')
-        st['inforce'] = st['pending'].pop(0)
+        v = st['pending'].pop(0)
+        if v is not None:
+            st['inforce'] = v
 
     def build_promise(parent, promised, headers):
         block = hb(headers, rng.choice([hm.WITHOUT_INDEXING, hm.INCREMENTAL, hm.NEVER]))
@@ -766,12 +774,15 @@ def duet_case(idx, rng, rep):
                 return fail('C22:duet:valid-step-refused:send_headers:' + core.exc_key(r.exc), repr(r.exc))
             req[sid] = {'off': d.sent['c2s'], 'rst_off': None, 'rst_called': False, 's_ended': False}
         elif op == 'toggle':
-            v = rng.choice([0, 1])
+            v = rng.choice([0, 1, 0, 1, None])
             steps.append(('C-update-settings-enable-push', v))
-            r = d.call('c', 'update_settings', {wire.S_ENABLE_PUSH: v})
+            r = d.call('c', 'update_settings', {} if v is None else {wire.S_ENABLE_PUSH: v})
             if r.exc is not None:
                 return fail('C22:duet:valid-step-refused:update_settings:' + core.exc_key(r.exc), repr(r.exc))
-            settings_sent.append((d.sent['c2s'], v))
+            if v is not None:
+                settings_sent.append((d.sent['c2s'], v))
+            else:
+                rep.count('settings_frames_without_enable_push_in_flight')
         elif op == 'rst':
             c = [s for s, v in req.items() if not v['rst_called']]
             if c:
